@@ -230,7 +230,25 @@ func (f *Formatter) formatArgument(arg *ast.Argument) {
 
 func (f *Formatter) walkArgumentList(s ast.SelectionSet) map[string]string {
 	res := make(map[string]string)
+	// variables used by directives of fragments and fields are declared with the type the directive gives the argument
+	walkDirectives := func(directives ast.DirectiveList) {
+		for _, d := range directives {
+			if d.Definition == nil {
+				continue
+			}
+			for _, a := range d.Arguments {
+				if a.Value == nil || a.Value.Kind != ast.Variable {
+					continue
+				}
+				if ad := d.Definition.Arguments.ForName(a.Name); ad != nil {
+					res[a.Value.Raw] = ad.Type.String()
+				}
+			}
+		}
+	}
+	walkDirectives(common.SelectionSetToFragmentDirectives(s))
 	for _, field := range common.SelectionSetToFields(s, nil) {
+		walkDirectives(field.Directives)
 		for _, a := range field.Arguments {
 			if field.Definition == nil || field.Definition.Arguments == nil {
 				break
